@@ -858,4 +858,158 @@ theorem splitLoop_static_terminates (l : Layout) (next : Nat → Bytes → Bytes
 theorem ahead_le_length (l : Layout) (key : Bytes) : ahead l key ≤ l.length := by
   unfold ahead; exact List.length_filter_le _ _
 
+
+/-! ## the runner as a scheduled system -/
+
+structure RunInv (tasks : List Task) (workers : Nat) (st : RunSt) : Prop where
+  a : st.closed = true → st.abandoned = false → st.pending = []
+  b : 0 < st.errExit ∨ st.abandoned = true ∨ ∀ t ∈ tasks, t ∈ st.handled ∨ t ∈ st.queue ∨ t ∈ st.pending
+  c : 0 < st.okExit → st.closed = true ∧ st.queue = []
+  d : st.idle + st.busy + st.okExit + st.errExit = workers
+
+theorem runInv_init (tasks : List Task) (workers : Nat) : RunInv tasks workers (RunSt.init tasks workers) := by
+  refine ⟨?_, .inr (.inr fun t ht => .inr (.inr ht)), ?_, by simp [RunSt.init]⟩
+  · intro h _; simpa [RunSt.init, List.isEmpty_iff] using h
+  · intro h; simp [RunSt.init] at h
+
+theorem runInv_step {tasks : List Task} {workers : Nat} {st : RunSt} (h : RunInv tasks workers st) (ev : RunEv) :
+    RunInv tasks workers (st.step ev) := by
+  obtain ⟨ha, hb, hc, hd⟩ := h
+  cases ev with
+  | cancel => exact ⟨ha, hb, hc, hd⟩
+  | push =>
+    simp only [RunSt.step]
+    split
+    · rename_i hcond
+      simp only [Bool.and_eq_true, Bool.not_eq_true', decide_eq_true_eq] at hcond
+      split
+      · rename_i t r hp
+        refine ⟨?_, ?_, ?_, hd⟩
+        · intro h1 _; simpa [List.isEmpty_iff] using h1
+        · rcases hb with hb | hb | hb
+          · exact .inl hb
+          · exact .inr (.inl hb)
+          · refine .inr (.inr fun u hu => ?_)
+            rcases hb u hu with h1 | h1 | h1
+            · exact .inl h1
+            · exact .inr (.inl (List.mem_append_left _ h1))
+            · rw [hp] at h1
+              rcases List.mem_cons.mp h1 with rfl | h2
+              · exact .inr (.inl (List.mem_append_right _ (by simp)))
+              · exact .inr (.inr h2)
+        · intro hk
+          have := (hc hk).1
+          rw [hcond.1] at this; cases this
+      · exact ⟨ha, hb, hc, hd⟩
+    · exact ⟨ha, hb, hc, hd⟩
+  | abandon =>
+    simp only [RunSt.step]
+    split
+    · rename_i hcond
+      simp only [Bool.and_eq_true, Bool.not_eq_true'] at hcond
+      refine ⟨fun _ _ => rfl, .inr (.inl rfl), ?_, hd⟩
+      intro hk
+      have := (hc hk).1
+      rw [hcond.2] at this; cases this
+    · exact ⟨ha, hb, hc, hd⟩
+  | pull =>
+    simp only [RunSt.step]
+    split
+    · exact ⟨ha, hb, hc, hd⟩
+    · rename_i hidle
+      split
+      · rename_i t q hq
+        split
+        · -- discarded under cancellation: the worker keeps ctx.Err()
+          refine ⟨ha, .inl (Nat.succ_pos _), ?_, by simp only; omega⟩
+          intro hk
+          have := (hc hk).2
+          rw [hq] at this; cases this
+        · refine ⟨ha, ?_, ?_, by simp only; omega⟩
+          · rcases hb with hb | hb | hb
+            · exact .inl hb
+            · exact .inr (.inl hb)
+            · refine .inr (.inr fun u hu => ?_)
+              rcases hb u hu with h1 | h1 | h1
+              · exact .inl (List.mem_append_left _ h1)
+              · rw [hq] at h1
+                rcases List.mem_cons.mp h1 with rfl | h2
+                · exact .inl (List.mem_append_right _ (by simp))
+                · exact .inr (.inl h2)
+              · exact .inr (.inr h1)
+          · intro hk
+            have := (hc hk).2
+            rw [hq] at this; cases this
+      · rename_i hq
+        split
+        · rename_i hcl
+          refine ⟨ha, ?_, fun _ => ⟨hcl, hq⟩, by simp only; omega⟩
+          simpa [hq] using hb
+        · exact ⟨ha, hb, hc, hd⟩
+  | finish fail =>
+    simp only [RunSt.step]
+    split
+    · exact ⟨ha, hb, hc, hd⟩
+    · split
+      · exact ⟨ha, .inl (Nat.succ_pos _), hc, by simp only; omega⟩
+      · exact ⟨ha, hb, hc, by simp only; omega⟩
+
+theorem runInv_run {tasks : List Task} {workers : Nat} (sched : List RunEv) :
+    ∀ {st : RunSt}, RunInv tasks workers st → RunInv tasks workers (st.run sched) := by
+  induction sched with
+  | nil => intro st h; exact h
+  | cons ev r ih => intro st h; exact ih (runInv_step h ev)
+
+
+/-- after a cancellation that found a sub-range in the channel: an error is recorded, or the sub-range is still there -/
+theorem queued_step {st : RunSt} (h : 0 < st.errExit ∨ (st.queue ≠ [] ∧ st.cancelled = true)) (ev : RunEv) :
+    0 < (st.step ev).errExit ∨ ((st.step ev).queue ≠ [] ∧ (st.step ev).cancelled = true) := by
+  cases ev with
+  | cancel => rcases h with h | h; exact .inl h; exact .inr ⟨h.1, rfl⟩
+  | push =>
+    simp only [RunSt.step]
+    split
+    · split
+      · rcases h with h | h
+        · exact .inl h
+        · exact .inr ⟨by simp, h.2⟩
+      · exact h
+    · exact h
+  | abandon =>
+    simp only [RunSt.step]
+    split
+    · rcases h with h | h; exact .inl h; exact .inr h
+    · exact h
+  | pull =>
+    simp only [RunSt.step]
+    split
+    · exact h
+    · split
+      · split
+        · exact .inl (Nat.succ_pos _)
+        · rename_i hq hc
+          rcases h with h | h
+          · exact .inl h
+          · exact absurd h.2 hc
+      · rename_i hq
+        rcases h with h | h
+        · split
+          · exact .inl h
+          · exact .inl h
+        · exact absurd hq h.1
+  | finish fail =>
+    simp only [RunSt.step]
+    split
+    · exact h
+    · split
+      · exact .inl (Nat.succ_pos _)
+      · rcases h with h | h; exact .inl h; exact .inr h
+
+theorem queued_run (sched : List RunEv) :
+    ∀ {st : RunSt}, (0 < st.errExit ∨ (st.queue ≠ [] ∧ st.cancelled = true)) →
+      (0 < (st.run sched).errExit ∨ ((st.run sched).queue ≠ [] ∧ (st.run sched).cancelled = true)) := by
+  induction sched with
+  | nil => intro st h; exact h
+  | cons ev r ih => intro st h; exact ih (queued_step h ev)
+
 end CGV.RangeTask
